@@ -133,7 +133,7 @@ def run(ctx):
         wl = [c for c in facts.descendants(wn) if c.kind == "closure" and pathx.desc(thir.peel(thir.root(c))) in ("Path::is_file(p)", "PathBuf::is_file(p)")]
         wl_lets = [pathx.desc(st["i"]) for st in thir.walk(thir.root(wn)) if isinstance(st, dict) and st.get("k") == "let" and st["p"].get("k") == "bind" and st["p"].get("n") == "whitelist"
                    and isinstance(st.get("i"), dict)]
-        ctx.require(len(wl) == 1 and len(wl_lets) == 1 and "args.filtering.paths" in wl_lets[0].replace("^", "") and wl_lets[0].startswith("Iterator::filter("), "R12.1", "whitelist-files",
+        ctx.require(len(wl) == 1 and wl_lets == ["Iterator::filter(Iterator::map(slice::iter(args.filtering.paths), Into::into), closure)"], "R12.1", "whitelist-files",
                     "the whitelist handed to the path filterer is the explicitly watched paths that are files", loc, detail=str(wl_lets)[:200],
                     fail="the whitelist is no longer `explicitly watched paths that are files` (%s)" % str(wl_lets)[:160])
         pg = [v for k, v in (fin[-1]["f"] if fin else []) if k == "progs"]
